@@ -43,6 +43,8 @@ class FnSpec:
         self.noprobe = False
         self.attrs = []
         self.is_const = False
+        self.closure_sink = None   # (call anchor, [captured idents])
+        self.sections = {}         # free-form named sections (sink-new, sink-done, call-head, call-tail)
 
 
 def load_specs(spec_dir=None):
@@ -62,6 +64,8 @@ def load_specs(spec_dir=None):
             kind = sect[0]
             if kind == 'contract':
                 cur.contract = text
+            elif kind == 'section':
+                cur.sections[sect[1]] = text
             elif kind == 'loop':
                 cur.loop_ann[sect[1]] = text
             elif kind in ('before', 'after', 'head', 'tail', 'end', 'after-loop', 'before-loop', 'loop-head', 'loop-tail'):
@@ -107,6 +111,10 @@ def load_specs(spec_dir=None):
                 if m:
                     sect = (m.group(1), int(m.group(2)), None)
                     continue
+                m = re.match(r'(sink-new|sink-done|call-head|call-tail)$', parts)
+                if m:
+                    sect = ('section', m.group(1), None)
+                    continue
                 m = re.match(r'(sub|sigsub) (\w+) "(.*)" => "(.*)"$', parts)
                 if m:
                     unesc = lambda t: t.replace('\\n', '\n')
@@ -128,6 +136,9 @@ def load_specs(spec_dir=None):
                     cur.assumed = v
                 elif k == 'tags':
                     cur.tags = v.split()
+                elif k == 'closure-sink':
+                    a, caps = v.split('|')
+                    cur.closure_sink = (a.strip(), caps.split())
                 elif k == 'attrs':
                     cur.attrs = v.split()
                 elif k == 'noprobe':
@@ -345,6 +356,17 @@ def emit_fn(spec, mode, probe=False):
         body = rw.enumerate_loops(body)
         body = rw.range_loops(body, spec.loops)
         body = rw.destructuring_assign(body)
+        if spec.closure_sink:
+            from rules import find_closure_arg
+            cl = find_closure_arg(body, spec.closure_sink[0])
+            stmt = body[cl['stmt_start']:cl['stmt_end']]
+            rel_s, rel_e = cl['cl_start'] - cl['stmt_start'], cl['cl_end'] - cl['stmt_start']
+            stmt2 = stmt[:rel_s] + '__sink' + stmt[rel_e:]
+            lead = stmt2[:len(stmt2) - len(stmt2.lstrip())]
+            stmt2 = lead + spec.sections.get('sink-new', '') + '        let mut __sink = ' + stmt2.lstrip() + '\n' + spec.sections.get('sink-done', '')
+            body = body[:cl['stmt_start']] + stmt2 + body[cl['stmt_end']:]
+            rw.log.append(('R10', 'closure |%s| {..} passed to %s) replaced by an owning sink object (captures: %s)' %
+                           (cl['param'], spec.closure_sink[0], ' '.join(spec.closure_sink[1]))))
         for (rule, frm, to) in spec.subs:
             body = rw.substitute(body, rule, frm, to)
     except SrcError as e:
@@ -413,6 +435,29 @@ def emit_fn(spec, mode, probe=False):
     em.rules = rw.log
     em.clauses = count_clauses(contract, spec.loop_ann, spec.inserts)
     em.clauses += [('runtime-assert', d) for (r, d) in rw.log if r == 'R0b']
+    return txt, em
+
+
+def emit_closure_call(spec):
+    """R10: the closure literal of `spec` (function under contract) as the body of `fn call` of its sink"""
+    from rules import find_closure_arg
+    it = locate_fn(spec)
+    rw = Rewriter()
+    body = rw.asserts(rw.flatten_paths(rw.visibility(it.body)))
+    try:
+        cl = find_closure_arg(body, spec.closure_sink[0])
+    except SrcError as e:
+        raise GenError('%s: %s' % (spec.name, e))
+    cb = cl['body']
+    for ident in spec.closure_sink[1]:
+        cb = re.sub(r'(?<![\w.])%s\b' % re.escape(ident), 'self.' + ident, cb)
+    rw.log.append(('R10', 'closure body emitted as sink method; captured %s prefixed with self.' % ', '.join(spec.closure_sink[1])))
+    txt = '    fn call(&mut self, %s: UnkWord) {\n%s%s\n%s    }\n' % (cl['param'], spec.sections.get('call-head', ''), cb.rstrip(), spec.sections.get('call-tail', ''))
+    em = Emitted()
+    em.name, em.mode, em.src, em.src_line = spec.name + '::{closure}', 'verify', spec.src, it.line
+    em.sha = hashlib.sha256(cl['body'].encode()).hexdigest()
+    em.rules = rw.log
+    em.clauses = count_clauses('', {}, [('x', None, None, spec.sections.get('call-tail', ''))])
     return txt, em
 
 
@@ -555,6 +600,13 @@ def generate_unit(unit_name, specs, probe=False):
                 em.gen_start, em.gen_end = start, cur_line() - 1
                 u.items.append(em)
                 (u.verified if mode == 'verify' else u.stubbed).append(name)
+            elif cmd == 'closure-call':
+                sp = specs[d[1]]
+                start = cur_line()
+                txt, em = emit_closure_call(sp)
+                out.append(txt)
+                em.gen_start, em.gen_end = start, cur_line() - 1
+                u.items.append(em)
             elif cmd == 'struct':
                 keep = ()
                 extra = ''
